@@ -364,8 +364,8 @@ func scenarios(tier string) []Scenario {
 	quickOps := map[int]bool{}
 	for i, o := range ops {
 		switch o.name {
-		case "ToEntry(a)", "Find(/a:c/b:y)", "Find(/va:c/va:x) from v", "Find(/p3:c3/p3:x) from v12", "InstantiatingModule(grafted y)", "InstantiatingModule(a:c/gl)", "InstantiatingModule(b:bc/gl)",
-			"FindModuleByNamespace(urn:a)", "FindModuleByNamespace(urn:b)", "FindModuleByNamespace(urn:none)", "ReadOnly+DefaultValues", "Print", "FindNode through uses":
+		case "ToEntry(a)", "Find(/a:c/b:y)", "Find(/va:c/va:x) from v", "Find(/p3:c3/p3:x) from v12", "InstantiatingModule(grafted y)", "InstantiatingModule(a:c/gl)",
+			"FindModuleByNamespace(urn:a)", "FindModuleByNamespace(urn:none)", "ReadOnly+DefaultValues", "Print", "FindNode through uses":
 			quickOps[i] = true
 		}
 	}
